@@ -16,8 +16,9 @@ CHECKS = {
              "the perifocal geometry; Kepler's equation; circular, equinoctial, TLE forms; keplerian->cartesian against the "
              "perifocal rotation; cartesian->keplerian against energy / eccentricity vector / h / node definitions and as left "
              "inverse of the reference k->c); Infos relations (vis-viva, apsides, period, vinf, dinf, flight-path angle); on "
-             "every return path of M2E within the unwinding bound the returned anomaly solves Kepler's equation to 2 e tol; all "
-             "90 ordered form pairs route through existing edges (enumerated).",
+             "every return path of M2E within the unwinding bound the returned anomaly solves Kepler's equation to 2 e tol and the "
+             "Newton start value of every start branch stays where binary64 sinh/cosh are finite (|start| <= 700 for |M| <= 400, "
+             "1.001 < e <= 20); all 90 ordered form pairs route through existing edges (enumerated).",
         note="Trusted: z3; numpy object-dtype kernels; textbook definitions written in the harness; Lipschitz/convexity lemmas for "
              "sin/sinh in the M2E exit argument; the encoder's polynomial normal form (only as fallback when the solver is "
              "inconclusive, cross-checked against solver verdicts). Assumed: non-degenerate states (denominators non-zero). "
@@ -34,11 +35,18 @@ CHECKS = {
              "indices, all 1000 explored) and ARBITRARY provider contents convert(A,C) = convert(B,C) convert(A,B) and "
              "convert(B,A) convert(A,B) = I (reduced words in the free groupoid on the providers); a frame attached to an orbit "
              "(QSW, TNW, or parent orientation) has that orbit at rest at its origin, its axes are the orbit's local triad, "
-             "parent->frame->parent is the identity and distances are preserved.",
+             "parent->frame->parent is the identity and distances are preserved. The Earth-orientation models run on a symbolic "
+             "date stub against constants transcribed from Vallado / the IERS Conventions: GMST-82, IAU-76 precession, mean obliquity, "
+             "Delaunay arguments, evaluation of the 1980 and 2000 series on small tables of symbolic coefficients, EOP corrections "
+             "and units, the equation of the equinoxes with its kinematic terms from MJD 50506 on, GAST, ERA, s', the 14 fundamental "
+             "arguments, the polynomial parts of X, Y, s+XY/2 (cross-read from the repository's IERS table headers), and the "
+             "arrangement of every rotation matrix (precession, nutation, sidereal, polar motion, Q(X,Y) R3(s), TEME, G50, frame "
+             "bias) element by element.",
         note="Trusted: z3; the path-composition clause is decided per explored path by word reduction (the solver enumerates the "
-             "index triples and proves exhaustiveness) -- the thinnest use of the technique here. Outside (declared): agreement "
-             "of the IAU-1980/2010 numbers with independent sidereal time / ERA / precession, 1980 vs 2010 < 0.1 arcsec, real IERS "
-             "data (series of 106/1600 terms and tables: no algebraic oracle); station frames are under C11.",
+             "index triples and proves exhaustiveness) -- the thinnest use of the technique here. The model constants of the "
+             "reference are the harness author's transcription. Outside (declared): the numbers inside the 106-row and 1600-row "
+             "series tables (no independent copy offline) and hence the numerical 1980-vs-2010 agreement < 0.1 arcsec; station "
+             "frames are under C11.",
         ref="DESIGN.md section 3 C02", technique=TECH),
     "C03": dict(
         text="beyond.dates.date runs symbolically on float/int subclasses that wrap exact reals (// % divmod with Python's floor "
@@ -50,11 +58,16 @@ CHECKS = {
              "instants whatever the labels; DateRange iteration = start+k*step, count = len(), membership, for both step signs and "
              "inclusive or not (bounded unwinding); the three missing-EOP policies. The eq/hash clause is decided bit-precisely: the "
              "return expressions of Date._mjd/__eq__/__hash__ are translated from the AST into IEEE-754 binary64 terms and cvc5 "
-             "proves that equal dates have equal hash inputs.",
+             "proves that equal dates have equal hash inputs. The IERS readers (Finals, Finals2000A, TaiUtc) and the day lookup of "
+             "SimpleEopDatabase run, through a fake pathlib.Path, on 3-line files whose digits and sign columns are solver variables: "
+             "EopDb.get(mjd) returns the values printed in the published columns of the line of day floor(mjd) (with the documented "
+             "last-value fallback for missing nutation corrections / LOD) and the TAI-UTC of the last leap line <= mjd, for 25 "
+             "solver-chosen configurations of missing fields.",
         note="Trusted: z3, cvc5; exact reals for the arithmetic laws (floating-point and microsecond rounding outside: the 1-2 "
              "microsecond bounds are not claimed), source float literals read as the decimals they denote; one EOP record for the "
-             "dates of an obligation (same table day, no leap second). Outside: IERS table content, same-instant across a TDB "
-             "conversion (needs a Lipschitz bound of the periodic term).",
+             "dates of an obligation (same table day, no leap second). Outside: content of the real IERS tables (the readers are checked on "
+             "arbitrary content in the published format, 3 lines per file), same-instant across a TDB conversion (needs a Lipschitz "
+             "bound of the periodic term).",
         ref="DESIGN.md section 3 C03", technique=TECH + "; AST->QF_FP (cvc5) for eq/hash"),
     "C04": dict(
         text="2-safety by self-composition on the real Date class (running on the exact-real model of C03): one symbolic instant is "
@@ -147,8 +160,8 @@ CHECKS = {
              "spherical form and the Range/Azimut/Elevation/Doppler measures are executed symbolically end to end: proved for every "
              "latitude in (-90,90), longitude, altitude, ellipsoid (a, 0<e<1) and every Earth-fixed target state that the station lies "
              "on the ellipsoid at the given height along the outward normal and is at rest, its axes are north/west/up, and range, "
-             "azimuth (= -theta), elevation and range-rate equal an independently written WGS-84 ENU computation (two-way range "
-             "counted per leg). get_mask equals the piecewise-linear wrap-around interpolant for every table of bounded length "
+             "azimuth (= -theta), elevation and range-rate equal an independently written WGS-84 ENU computation (range counted once "
+             "per leg on open and closed signal paths of 2..5 nodes). get_mask equals the piecewise-linear wrap-around interpolant for every table of bounded length "
              "(strictly increasing azimuths ending at 2 pi) and every real azimuth, all loop paths explored.",
         note="Trusted: z3; ENU/ellipsoid reference in the harness; exact cofactor inverse standing in for np.linalg.inv. Earth.r/Earth.e "
              "replaced by symbols. Bounded: mask tables of <= 3 (quick) / 5 (thorough) entries. Outside: motion with the Earth's "
@@ -177,9 +190,13 @@ CHECKS = {
              "f 2 pi/t; sin(beta) = h^.s^ with beta in [-90, 90] deg; B-plane: (S, T, R) orthonormal, B perpendicular to S and h, S "
              "= e^/e + (h^ x e^) sqrt(1-1/e^2) (the incoming asymptote; this last obligation is heavy and may be reported "
              "inconclusive in the quick tier); sso(a, e) -> i makes the first-order J2 node drift equal 2 pi/(365.256363004 d) and "
-             "sso(a, i) recovers e; frozen-orbit eccentricity formula.",
+             "sso(a, i) recovers e; frozen-orbit eccentricity formula. Lambert, decidable parts only: with the time-of-flight "
+             "function uninterpreted the real _lambert returns only after a Newton step <= its tolerance (bounded number of "
+             "evaluations); for any y > 0 its velocities conserve energy and angular momentum, stay in the transfer plane and turn "
+             "the way asked; _C, _S, _y, _F equal the universal-variable equation (z > 0, = 0, < 0).",
         note="Trusted: z3; the sun's right ascension, Earth constants and the reference body are symbols. Outside (declared, not "
-             "claimed): the Lambert solver (bracketing + Newton on transcendental Stumpff functions), sso_frozen iteration, |B| = "
+             "claimed): convergence of the Lambert Newton iteration and its bracketing loop (transcendental Stumpff functions; the "
+             "replay measures arrival on a panel of transfers only when a counterexample is confirmed), sso_frozen iteration, |B| = "
              "impact parameter through the full element conversion.",
         ref="DESIGN.md section 3 C19", technique=TECH),
     "C20": dict(
@@ -218,7 +235,9 @@ CHECKS = {
              "(10 built-in frames + QSW/TNW, attach frame any of the 7 non-rotating ones) up to the bound and every branch of the "
              "setter, and proves that every matrix product is well typed, that M C M^T uses one M, that the result is expressed in "
              "the requested frame and that QSW/TNW triads are built from the attach-frame state -- which, rotations forming a "
-             "groupoid, is exactly 'R C R^T with R depending only on the target'. Counterexample sequences are replayed on real "
+             "groupoid, is exactly 'R C R^T with R depending only on the target'; the same after Cov.copy(frame=...) taken at any point "
+             "of such a history, followed by one more change of the copy (triads typed by the kinematic class, non-rotating vs "
+             "Earth-fixed, of the coordinates they are built from). Counterexample sequences are replayed on real "
              "StateVector/Cov objects after every step.",
         note="Trusted: z3; the groupoid law of frame rotations (C02). Bounded: sequences of <= 3 (quick) / 4 (thorough) targets. "
              "Outside: eigenvalue preservation as a separate numeric statement.",
